@@ -109,6 +109,10 @@ class BGP(protocol.Protocol):
         Starts the initial negotiation of the protocol
         """
         self.init_rib()
+        # the peer's capabilities are those of its OPEN on this connection only:
+        # forget what an earlier session (or a rejected OPEN) advertised, otherwise
+        # capability_negotiate() strips our next OPEN down to the old intersection
+        cfg.CONF.bgp.running_config['capability']['remote'] = {}
         # Set transport socket options
         self.transport.setTcpNoDelay(True)
         # set tcp option if you want
